@@ -30,7 +30,7 @@ CHECKS = {
    "bounded configuration set; worker counts >1 soundness only"),
  "C13": ("model_checking", "E3", "stateless model checking of the real Mine under a controlled scheduler (build overlay routes sync, atomic, channel, select and go through shims): depth-first exploration of all interleavings, unbounded with state-key pruning for N<=2 (thorough N<=3), iterated preemption bound for larger N; separate free-running -race pass",
    "141 (thorough ~170) closed scenarios = PoW version x N workers x which worker finds in which batch x cancellation never/before/concurrent; every schedule: Mine returns, nonce valid or ErrCancelled only if cancelled, no goroutine panic, no goroutine left behind, no worker ignores the done flag for 4+ batches; every 64th and every violating schedule replayed twice for determinism; data races by a free-running -race pass (sampling, reported separately)",
-   "SC semantics for atomics; a worker that polled 3 times fruitlessly is treated as waiting; unbuffered-channel rendezvous and value-carrying select cases are not modelled (reported as unsupported, never as violation)"),
+   "SC semantics for atomics; a worker that polled 3 times fruitlessly is treated as waiting; unbuffered-channel rendezvous and channels of other element types than uint64/struct{} are not modelled (reported as unsupported, never as violation)"),
  "C18": ("exploration", "E1", E1,
    "12 (thorough 42) seeds x alphas {empty, every single byte value, ramps up to 40/130 bytes}: proofs byte-equal to an RFC 9381 reference over math/big (try-and-increment counters 0..7 all occur), Verify/ProofToHash/Proof.Hash agree; all 640 single-bit flips, s+j*L, Gamma+T for all 8 torsion points, every small-order/non-canonical encoding as Gamma and as key, torsion-shifted keys, forged proofs that only key validation rejects, lengths 0..82: verdict, beta and decode-iff-canonical equal to the reference",
    "'all 80-byte strings' covered structurally; ref/vrf validated on the RFC's TAI vectors"),
